@@ -1,5 +1,234 @@
 """C13 - standard metadata values are interpreted as documented (durations, servings, locale kernels)."""
-import scratch, kani_group, registry
+import os, json, re
+from fractions import Fraction
+import scratch, kani_group, registry, native, mcheck, mir, smt, models, strmodel
+from mir import SV, Agg, Enum, Opaque, OpenAgg, VecVal
+
+DOC = {"s": Fraction(1, 60), "sec": Fraction(1, 60), "secs": Fraction(1, 60), "second": Fraction(1, 60), "seconds": Fraction(1, 60),
+       "m": 1, "min": 1, "minute": 1, "minutes": 1, "h": 60, "hour": 60, "hours": 60, "d": 1440, "day": 1440, "days": 1440}
+U32MAX = 2 ** 32 - 1
+
+
+def m_part(run, scr, nat):
+    """parse_time (whitespace-separated number-unit pairs with the hard-coded units, float fallback) on abstract strings"""
+    ms = mcheck.MSession(run, scr)
+    dump = ms.load_mir()
+    decls = ms.decls
+    run.functions += ["metadata::parse_time (MIR)", "metadata::parse_time_with_units (MIR, loop unrolled by the word count)",
+                      "metadata::hard_coded_time_units (MIR)"]
+    f_parse_time = dump.find(r"^parse_time$")
+    items = []
+    INVALID_UNIT = "\"0#\""      # a string that is no documented unit (stands for a unit word with a numeric prefix)
+    for nwords in ((1, 2, 3) if run.tier == "quick" else (1, 2, 3, 4)):
+        sem = smt.RealSem(prefix="k%d" % nwords)
+        mods = dict(models.STD_MODELS)
+        mods.update(models.MORE_MODELS)
+        mods.update(models.VEC_MODELS)
+        it = mir.Interp(dump, decls, sem, models=mods)
+        it.models.update(strmodel.mk_models(it, sem))
+        it.merge_calls = [r"^hard_coded_time_units$"]
+        words = [strmodel.Word(sem, "w%d" % i) for i in range(nwords)]
+        for w in words:
+            # numtext empty <=> word is only a unit; a word is not empty; a parsable number part is not empty
+            sem.decls.append("(declare-const %s_numempty Bool)" % w.name)
+            sem.decls.append("(assert (=> %s (not %s_numempty)))" % (w.num_ok, w.name))
+            sem.decls.append("(assert (not (and %s_numempty (= %s \"\"))))" % (w.name, w.unit))
+            sem.decls.append("(assert (not (str.contains %s \" \")))" % w.unit)
+            w.as_unit = "(ite %s_numempty %s %s)" % (w.name, w.unit, INVALID_UNIT)
+        # a word taken whole as the unit of the previous number
+        def unit_of_whole(sv, _orig=None):
+            return sv.word.as_unit
+        orig_eq = it.models[r"^<str as PartialEq>::eq$"]
+
+        def m_str_eq(it_, args, callee):
+            def e(x):
+                if isinstance(x, SV):
+                    return x.expr
+                if isinstance(x, strmodel.StrVal) and x.kind == "word":
+                    return x.word.as_unit
+                if isinstance(x, strmodel.StrVal) and x.kind == "unitpart":
+                    return x.word.unit
+                raise mir.Unsupported("string comparison on %r" % (x,))
+            return SV("bool", "(= %s %s)" % (e(args[0]), e(args[1])))
+        it.models[r"^<str as PartialEq>::eq$"] = m_str_eq
+        whole = strmodel.Whole(sem, words)
+        # the compact HhMm recogniser is decided separately (Kani); here it declines
+        it.models[r"^parse_common_time_format$"] = lambda it_, a, c: it._mk_enum("Option", "None", [])
+        cf = decls.structs.lookup("Converter", "convert")
+        conv = OpenAgg("Converter", {str(cf.index("all_units")): VecVal([])})
+        outs = it.run(f_parse_time, [strmodel.StrVal("whole", whole=whole), conv])
+        # ---- documented semantics as SMT terms (backward recursion over the word index)
+        def doc(u):
+            return "(or %s)" % " ".join("(= %s \"%s\")" % (u, k) for k in DOC)
+
+        def contrib(num, u):
+            # num * factor(u), with the multiplication pushed into the branches so that every branch is linear
+            e = "0.0"
+            for k, f in DOC.items():
+                e = "(ite (= %s \"%s\") (* %s %s) %s)" % (u, k, smt.rat(Fraction(f)), num, e)
+            return e
+        valid = {nwords: "true", nwords + 1: "false"}
+        total = {nwords: "0.0", nwords + 1: "0.0"}
+        for i in range(nwords - 1, -1, -1):
+            w = words[i]
+            joined_ok = "(and (not (= %s \"\")) %s %s)" % (w.unit, w.num_ok, doc(w.unit))
+            v_j = "(and %s %s)" % (joined_ok, valid[i + 1])
+            t_j = "(+ %s %s)" % (contrib(w.num, w.unit), total[i + 1])
+            if i + 1 < nwords:
+                nx = words[i + 1]
+                sep_ok = "(and (= %s \"\") %s %s_numempty %s)" % (w.unit, w.num_ok, nx.name, doc(nx.unit))
+                v_s = "(and %s %s)" % (sep_ok, valid[i + 2])
+                t_s = "(+ %s %s)" % (contrib(w.num, nx.unit), total[i + 2])
+            else:
+                v_s, t_s = "false", "0.0"
+            valid[i] = sem.define("Bool", "(or %s %s)" % (v_j, v_s), "valid")
+            total[i] = sem.define("Real", "(ite (= %s \"\") %s %s)" % (w.unit, t_s, t_j), "total")
+        V0, T0 = valid[0], total[0]
+        # the float total differs from the exact one by rounding: the range test gets a margin of 2 minutes on either side
+        inrange = lambda x: "(< %s %s)" % (x, smt.rat(Fraction(U32MAX) + 2))
+        well_inside = lambda x: "(<= %s %s)" % (x, smt.rat(Fraction(U32MAX) - 2))
+        close = lambda t, x: "(<= %s (+ 0.5 (* %s (+ %s 1.0))))" % (
+            "(ite (>= (- (to_real %s) %s) 0.0) (- (to_real %s) %s) (- %s (to_real %s)))" % (t, x, t, x, x, t), smt.rat(Fraction(1, 10 ** 9)), x)
+        fetch = [x for w in words for x in (w.num, w.unit, w.num_ok, "%s_numempty" % w.name)] + [whole.float_ok, whole.float]
+        D = list(sem.decls)
+        n_ok = 0
+        for o in outs:
+            p = ">".join(o.trace[-3:])
+            pcs = mcheck.pc_assert(o.pc)
+            if o.kind == "panic":
+                items.append((nwords, D, fetch, words, whole, "parse_time on %d word(s) never panics: %s" % (nwords, str(o.msg)[:40]), pcs, "unsat"))
+                continue
+            if o.kind != "return":
+                continue
+            res = o.value
+            if "Ok" in res.variants:
+                n_ok += 1
+                t = res.variants["Ok"].fields["0"].expr
+                good = "(or (and %s %s %s) (and %s (>= %s 0.0) %s %s))" % (V0, inrange(T0), close(t, T0), whole.float_ok, whole.float,
+                                                                             inrange(whole.float), close(t, whole.float))
+                items.append((nwords, D, fetch, words, whole,
+                              "%d word(s) path[%s]: a returned number is the rounded documented total (or the plain non-negative number of minutes) and fits u32 - never a wrapped, saturated or otherwise wrong number" % (nwords, p),
+                              pcs + ["(not %s)" % good], "unsat"))
+            else:
+                items.append((nwords, D, fetch, words, whole,
+                              "%d word(s) path[%s]: a documented pair sequence whose total fits is never refused" % (nwords, p),
+                              pcs + [V0, well_inside(T0), "(>= %s 0.0)" % T0], "unsat"))
+        if n_ok == 0:
+            run.inconclusive.append("parse_time on %d word(s): no successful path found" % nwords)
+    run.assumptions += [
+        "strings are abstracted to 1..4 whitespace-separated words, each `<digits/dots><rest>`; what the code can observe of a word "
+        "(number part parses or not and its value in [0,1e12], the rest as an SMT string, emptiness of either part) is symbolic",
+        "empty converter (hard-coded units); the compact HhMm recogniser is cut to `None` here and decided by the Kani harnesses",
+        "real+delta float model; totals compared with a 0.5 rounding margin",
+    ]
+    run.bounds.append("M: parse_time_with_units' loop unrolled by the word count (1..=3 words; 4 in the thorough tier)")
+
+    def on_sat(nwords, words, whole, name):
+        def cb(model, ob, item):
+            confirm_time(run, nat, words, whole, model, name, ob)
+        return cb
+    # one batch per word count (each has its own declarations)
+    by_n = {}
+    for (n, D, fetch, words, whole, name, asserts, expect) in items:
+        by_n.setdefault(n, (D, [])).__getitem__(1).append((fetch, words, whole, name, asserts, expect))
+    for n, (D, lst) in sorted(by_n.items()):
+        batch = mcheck.Batch(ms, "c13-%d" % n, D, timeout_s=120 if run.tier == "quick" else 600)
+        for (fetch, words, whole, name, asserts, expect) in lst:
+            batch.add(name, asserts, expect, fetch, on_sat(n, words, whole, name))
+        batch.run()
+    if items:
+        run.samples.append({"engine": "mir-smt", "obligation": items[0][5]})
+    ms.close()
+
+
+def fmt_num(x):
+    fr = Fraction(x)
+    if fr.denominator == 1:
+        return str(fr.numerator)
+    return ("%.6f" % float(fr)).rstrip("0")
+
+
+def reference_minutes(s):
+    """documented reading of a duration string (number-unit pairs, or a plain number of minutes); None = refuse"""
+    m = re.fullmatch(r"(?:(\d+)h)?(?:(\d+)m)?", s)
+    if s and m and (m.group(1) or m.group(2)):
+        tot = int(m.group(1) or 0) * 60 + int(m.group(2) or 0)
+        return tot if tot <= U32MAX else None
+    parts = s.split()
+    tot = Fraction(0)
+    i = 0
+    ok = bool(parts)
+    while ok and i < len(parts):
+        mm = re.fullmatch(r"([0-9.]*)(.*)", parts[i])
+        num, unit = mm.group(1), mm.group(2)
+        if unit == "":
+            if i + 1 >= len(parts):
+                ok = False
+                break
+            unit = parts[i + 1]
+            i += 1
+        try:
+            val = Fraction(float(num))
+        except Exception:
+            ok = False
+            break
+        if unit not in DOC:
+            ok = False
+            break
+        tot += val * DOC[unit]
+        i += 1
+    if ok:
+        r = int(tot + Fraction(1, 2))
+        return r if r <= U32MAX else None
+    try:
+        g = float(s)
+    except Exception:
+        return None
+    if g != g or g < 0 or g in (float("inf"), float("-inf")):
+        return None
+    r = int(Fraction(g) + Fraction(1, 2))
+    return r if r <= U32MAX else None
+
+
+def confirm_time(run, nat, words, whole, model, name, ob):
+    """build concrete strings from the model and compare the public accessor with the documented reading"""
+    cands = []
+    try:
+        parts = []
+        for w in words:
+            numok = model.get(w.num_ok)
+            unit = model.get(w.unit, "")
+            unit = "" if unit is None else str(unit)
+            num = fmt_num(model.get(w.num, 0)) if numok else ""
+            parts.append(num + unit)
+        cands.append(" ".join(p for p in parts if p))
+    except Exception:
+        pass
+    if model.get(whole.float_ok):
+        g = Fraction(model.get(whole.float, 0))
+        cands.append(fmt_num(g) if g >= 0 else "-" + fmt_num(-g))
+    # solver models sit on boundaries: a few neighbours / canonical large values
+    cands += ["71582789h", "5000000000 m", "9999999 d", "-5", "1e20", "4294967296", "3 d 2 h", "90 s", "1 hour 30 min", "5000000000m"]
+    tried = 0
+    for s in cands:
+        for profile in nat.bins:
+            r = nat.call("time", s, profile=profile)
+            tried += 1
+            want = reference_minutes(s)
+            got = r.get("minutes") if isinstance(r, dict) else None
+            if r.get("panic") or "error" in r:
+                bad = "as_minutes(%r) panicked" % s
+            elif got != want and not (got is not None and want is not None and abs(got - want) <= 1):
+                bad = "as_minutes(%r) = %r, documented reading: %r" % (s, got, want)
+            else:
+                continue
+            run.traces_validated += tried
+            kind = "wrong-number" if got is not None else "refused"
+            run.violation("kernel=metadata::parse_time %s" % kind, bad, dict(engine="mir-smt", replay="time", string=s, profile=profile))
+            ob["status"] = "violated"
+            return
+    run.traces_validated += tried
+    run.inconclusive.append("C13 %s: candidate strings %s do not reproduce" % (name[:60], cands[:2]))
 
 
 def check(run):
@@ -17,13 +246,41 @@ def check(run):
         "dynamic units through a non-empty converter (HashMap lookups)",
         "the parse-time warning <-> accessor link (needs the analysis pass)",
     ]
-    kani_group.run_group(run, scr, registry.select("C13", run.tier))
+    only = os.environ.get("VERIF_ONLY", "")
+    if only in ("", "M"):
+        nat = native.Native(scr)
+        nat.build(log=os.path.join(run.logdir, "native-build.log"))
+        try:
+            m_part(run, scr, nat)
+        except mir.Unsupported as e:
+            run.inconclusive.append("encoder: %s" % e)
+        # validation: documented reading vs the real accessor on concrete strings
+        for s_ in ("90 s", "1 hour 30 min", "1hour 30min", "3 d 2 h", "45 secs", "25 secs", "   0  hours 90min 59 sec ", "90", "1 kilometer", "1hour30min"):
+            r = nat.call("time", s_)
+            run.traces_validated += 1
+            if r.get("minutes") != reference_minutes(s_.strip()) and not run.violations:
+                run.violation("validation-vector time %s" % s_.strip().replace(" ", "_"),
+                              "as_minutes(%r) = %r but the documented reading gives %r" % (s_, r, reference_minutes(s_.strip())),
+                              dict(engine="validation-vector", replay="time", string=s_.strip()))
+    if only in ("", "K"):
+        kani_group.run_group(run, scr, registry.select("C13", run.tier))
 
 
 def replay(run, path):
+    obj = json.load(open(path))
     scr = scratch.Scratch()
     scr.copy_repo()
     scr.inject()
+    if obj.get("replay") == "time":
+        nat = native.Native(scr)
+        nat.build()
+        r = nat.call("time", obj["string"])
+        want = reference_minutes(obj["string"])
+        print("replay: as_minutes(%r) = %r, documented %r" % (obj["string"], r, want))
+        if r.get("panic") or r.get("minutes") != want:
+            print("VIOLATION property=C13 replay=%s" % path)
+            return 1
+        return 0
     st = kani_group.replay(run, scr, path)
     print("replay: %s" % st)
     if st == "failed":
